@@ -254,6 +254,26 @@ func TestC19(t *testing.T) {
 			reuse("after Deserialize, new payload of the received length", p5)
 		}
 	}
+	// one MsgData object as the destination of several Deserialize calls (ReceiveControlMsg takes the
+	// destination from its caller): longer then shorter, shorter then longer, equal lengths, empty
+	dst := mailbox.NewMsgData(0, nil)
+	for i, l := range []int{16, 3, 12, 12, 0, 300, 1, 0, 0, 7} {
+		want := patterned(l, 40+i)
+		wire, err := mailbox.NewMsgData(uint8(i), want).Serialize()
+		if err != nil {
+			continue
+		}
+		if err := dst.Deserialize(wire); err != nil {
+			r.Violate("C19/msgdata-dest-reuse", fmt.Sprintf("Deserialize #%d into a used MsgData object failed: %v", i+1, err), map[string]int{"step": i, "len": l})
+			continue
+		}
+		back, _ := dst.Serialize()
+		if !bytes.Equal(dst.Payload, want) || !bytes.Equal(back, wire) {
+			r.Violate("C19/msgdata-dest-reuse", fmt.Sprintf("Deserialize #%d into a used MsgData object: a %d byte payload was sent, the object now holds %d bytes (%s...) and re-serialises to %d bytes instead of %d",
+				i+1, l, len(dst.Payload), hx(dst.Payload[:min(8, len(dst.Payload))]), len(back), len(wire)), map[string]int{"step": i, "len": l})
+		}
+		r.Case(fmt.Sprintf("msg-dest-reuse:%d:%d", i, l), true, "msg-dest-reuse")
+	}
 	gbnMsgCase(r, &gbn.PacketFIN{}, "gbn-msg-fin")
 	gbnMsgCase(r, &gbn.PacketSYNACK{}, "gbn-msg-synack")
 	for _, l := range []int{15, 16, 255, 256, 1000, 65535, 65536, 65537} {
